@@ -1,5 +1,6 @@
 // C01 — geometric planners only report solution paths that are real.
 // One case per forked child: planner x space x environment x problem (normal or abnormal scenario) x parameters x seed x budget.
+#include <sstream>
 #include "../gen/planning.h"
 
 namespace ob = ompl::base;
@@ -44,7 +45,12 @@ void vf::run_case(Src &s, Ctx &c)
     const PlannerInfo &pi = R[thr[s.pick(thr.size())]];
     const unsigned nthreads = (unsigned)s.in(2, 6);
 #else
-    const PlannerInfo &pi = R[s.pick(R.size())];
+    size_t pidx = s.pick(R.size());
+    // exploration aid (never set by ./check): sweep one planner, e.g. VF_FORCE_PLANNER=PDST ./check C01 --seed 5
+    if (const char *fp = std::getenv("VF_FORCE_PLANNER"))
+        if (findPlanner(fp) >= 0)
+            pidx = (size_t)findPlanner(fp);
+    const PlannerInfo &pi = R[pidx];
 #endif
     c.context(pi.name);
     unsigned seed = 1 + (unsigned)s.u(0, 1000000);
@@ -100,7 +106,10 @@ void vf::run_case(Src &s, Ctx &c)
         rejected = true;
         rejectWhy = e.what();
     }
-    const std::string pkey = std::string("/") + pi.name;
+    // PDST re-derives the interior of a split motion by interpolating between the split points again; on Dubins that is a different
+    // (known-finding) failure family from anything it does elsewhere, so the space family is part of its key
+    const std::string pkey = std::string("/") + pi.name +
+                             (std::string(pi.name) == "PDST" && P->ps.curveFamily() ? (P->ps.kind == SP_DUBINS ? "(Dubins)" : "(ReedsShepp)") : "");
     size_t nsol = P->pdef->getSolutionCount();
     if (rejected)
     {
@@ -174,8 +183,15 @@ void vf::run_case(Src &s, Ctx &c)
     }
     // --- clauses 2-4 on the reported path
     bool strict = pi.strictRecheck;
-    PathVerdict v = checkPath(*P, *pg, strict, pi.bidirectional || pi.optimizing || !pi.directedOk);
+    // on the curve spaces only direction-aware planners run, and there a motion is not its own reverse: the re-check is forward only
+    PathVerdict v = checkPath(*P, *pg, strict, !P->ps.curveFamily() && (pi.bidirectional || pi.optimizing || !pi.directedOk));
     c.stat("invalid-run/r", v.worstRun);
+    if (!v.ok())
+    {
+        std::ostringstream os;
+        pg->printAsMatrix(os);
+        c.note("reported path (one state per line):\n%s", os.str().substr(0, 3000).c_str());
+    }
     if (!v.ok())
         c.failOrKnown(KP "/" + v.key + pkey, vf::fmt("%s on %s: %s [%s, %zu states]", pi.name, P->ps.name().c_str(), v.msg.c_str(), statusName(st), pg->getStateCount()));
     bool forced = P->scenario != SC_NORMAL;
